@@ -52,6 +52,40 @@ fn lent_reference_dies_with_the_call() {
 
 #[kani::proof]
 #[kani::unwind(4)]
+fn readonly_lent_reference_dies_with_the_call() {
+    let host = Host { n: 9 };
+    let slim: bool = kani::any();
+    let count: Arc<Mutex<BorrowFlag>> = Arc::new(Mutex::new(1));
+    // the two representations of a shared lent reference
+    let strong_cell: ManuallyDrop<StandardSharedMut<*const Host>> = ManuallyDrop::new(Arc::new(RwLock::new(&host as *const Host)));
+    let strong_slim: ManuallyDrop<Arc<Host>> = ManuallyDrop::new(Arc::new(Host { n: 9 }));
+    let inner: Arc<dyn ReferenceCustomType> = if slim {
+        Arc::new(ReadOnlyTemporary { ptr: Arc::downgrade(&strong_slim) })
+    } else {
+        Arc::new(ReadOnlyBorrowedObject::new(Arc::downgrade(&strong_cell), Arc::clone(&count)))
+    };
+    let v = SteelVal::Reference(Gc::new(OpaqueReference { inner }));
+    {
+        let r = <Host as AsRefSteelValFromRef>::as_ref_from_ref(&v);
+        match &r {
+            Ok(view) => assert!(view.as_ro().n == 9, "the script reads another object than the one lent"),
+            Err(_) => assert!(false, "a lent reference must be usable during the call"),
+        }
+        drop(r);
+    }
+    assert!(kind_of(&<Other as AsRefSteelValFromRef>::as_ref_from_ref(&v)) == Some(ErrorKind::ConversionError));
+    assert!(kind_of(&<Host as AsRefSteelValFromRef>::as_ref_from_ref(&SteelVal::Void)) == Some(ErrorKind::ConversionError));
+    // the call ends
+    let (mut a, mut b) = (strong_cell, strong_slim);
+    unsafe {
+        ManuallyDrop::drop(&mut a);
+        ManuallyDrop::drop(&mut b);
+    }
+    assert!(kind_of(&<Host as AsRefSteelValFromRef>::as_ref_from_ref(&v)) == Some(ErrorKind::Generic), "a lent reference is still usable after the call ended");
+}
+
+#[kani::proof]
+#[kani::unwind(4)]
 fn parent_is_frozen_while_a_child_reference_lives() {
     let mut host = Host { n: 5 };
     let (_strong, v) = lend(&mut host);
